@@ -1,6 +1,7 @@
 """Shared machinery of the two units checks (C16 dispatch / SI strings, C17 conversions / tables).
 
-* regen(): run the reflective translator (tools/regen.sh) and load its JSON side output
+* Tree: the tables generated from the tree under test, in a directory of their own (translator
+  --out), the proof files that depend on them compiled there; check_proofs(): build + re-check of Props
 * call specs: JSON descriptions of one observable call on pydsol.core.units; they are
   executed on the real classes (run_call), rendered as Coq terms for Units.Dispatch.eval
   (coq_call / coq_obs), and stored verbatim in replay files
@@ -10,9 +11,11 @@
 """
 from __future__ import annotations
 
+import hashlib
 import json
 import math
 import os
+import re
 import subprocess
 import sys
 from pathlib import Path
@@ -41,21 +44,177 @@ class SafeRun(C.Run):
         return super().violation(slug(signature), what, replay, found_input)
 
 
-# ------------------------------------------------------------------ translator
-def regen() -> dict:
-    """Run the translator on VERIF_REPO's tree (under the build lock, because it may rewrite
-    a Coq source) and return its JSON dump."""
-    with C.BuildLock():
-        env = dict(os.environ)
-        env["VERIF_REPO"] = str(C.REPO)
-        p = subprocess.run(["sh", str(C.VERIF / "tools" / "regen.sh")], capture_output=True, text=True, env=env)
-    if p.returncode != 0:
-        raise RuntimeError("translator failed: " + (p.stderr or p.stdout)[-2000:])
-    dump = json.loads((C.SCRATCH / "units" / "dump.json").read_text())
-    dump["_log"] = p.stdout.strip()
-    if Path(dump.get("repo", "")) != C.REPO:
-        raise RuntimeError(f"translator dumped {dump.get('repo')} but the check runs against {C.REPO}")
-    return dump
+# ------------------------------------------------------------------ per-tree generated tables
+# Every run works on a directory of its own tree: .scratch/units/trees/<key>/ holds the tables
+# generated from THAT tree (Gen_Tables.v, Gen_Compound.v, dump.json), copies of the proof files
+# that depend on them (GenFacts16/17.v, Props C16/C17) and their .vo, under the logical root PVT.
+# <key> is a hash of the tree's units.py and of the sources the generated files depend on, so runs
+# against different trees never share a generated file, a finished directory is never stale, and
+# switching back to a tree seen before costs nothing.  coq/Units/Gen_*.v (written by tools/regen.sh
+# for setup / `build all`) is not touched by the checks.
+TREES = C.SCRATCH / "units" / "trees"
+STATIC_TARGETS = ["Units/TableProofs.vo", "Units/DispatchProofs.vo", "Units/SIStringProofs.vo", "Units/Pinned.vo"]
+TREE_FILES = [("Gen_Tables", None), ("Gen_Compound", None),
+              ("GenFacts16", "Units/GenFacts16.v"), ("GenFacts17", "Units/GenFacts17.v")]
+TREE_DEPS = {"Gen_Tables": [], "Gen_Compound": [], "GenFacts16": ["Gen_Tables"],
+             "GenFacts17": ["Gen_Tables", "Gen_Compound"]}
+_GEN_IMPORT = re.compile(r"^From PV Require Import ((?:Units\.(?:Gen_Tables|Gen_Compound|GenFacts16|GenFacts17)\s*)+)\.\s*$", re.M)
+COQ_WARN = "-notation-overridden,-deprecated-hint-without-locality,-abstract-large-number,-inexact-float"
+
+
+def to_tree_source(text: str) -> str:
+    """the same source with the generated modules taken from the per-tree root PVT"""
+    return _GEN_IMPORT.sub(lambda m: "From PVT Require Import " + " ".join(x.replace("Units.", "") for x in m.group(1).split()) + ".",
+                           text)
+
+
+def tree_key() -> str:
+    h = hashlib.sha1(str(C.REPO.resolve()).encode() + b"\0")
+    for f in (C.REPO / "src" / "pydsol" / "core" / "units.py", C.VERIF / "translator" / "dump_units.py",
+              C.COQ / "Units" / "Tables.v", C.COQ / "Units" / "Sig.v"):
+        h.update(f.read_bytes())
+        h.update(b"\0")
+    return h.hexdigest()[:16]
+
+
+def coqc_tree(tree: Path, path: Path, timeout: int = 600, cwd: Path | None = None):
+    cmd = ["timeout", str(timeout), "coqc", "-R", str(C.COQ), "PV", "-R", str(tree), "PVT", "-w", COQ_WARN, str(path)]
+    p = subprocess.run(cmd, capture_output=True, text=True, cwd=cwd or path.parent)
+    return p.returncode, p.stdout + p.stderr
+
+
+def coqc_tree_many(tree: Path, paths, timeout: int = 900):
+    from concurrent.futures import ThreadPoolExecutor
+    with ThreadPoolExecutor(max_workers=C.NPROC) as ex:
+        return list(ex.map(lambda q: coqc_tree(tree, q, timeout), paths))
+
+
+class Tree:
+    """The generated tables of the tree under test, built in a directory of their own."""
+
+    def __init__(self):
+        self.key = tree_key()
+        self.dir = TREES / self.key
+        self.log = ""
+        self.failed: dict[str, str] = {}        # module -> coqc output
+
+    def prepare(self) -> dict:
+        """translate (once per key) and compile what is out of date; returns the JSON dump"""
+        import fcntl
+        self.dir.mkdir(parents=True, exist_ok=True)
+        with open(self.dir / ".lock", "w") as lk:
+            fcntl.flock(lk, fcntl.LOCK_EX)
+            try:
+                if not all((self.dir / n).exists() for n in ("Gen_Tables.v", "Gen_Compound.v", "dump.json")):
+                    env = dict(os.environ)
+                    env["VERIF_REPO"] = str(C.REPO)
+                    env["PYTHONDONTWRITEBYTECODE"] = "1"
+                    p = subprocess.run(["timeout", "120", C.PY, str(C.VERIF / "translator" / "dump_units.py"), "--out", str(self.dir)],
+                                       capture_output=True, text=True, env=env)
+                    if p.returncode != 0:
+                        raise RuntimeError("translator failed: " + (p.stderr or p.stdout)[-2000:])
+                    self.log = p.stdout.strip()
+                    (self.dir / "translator.log").write_text(self.log + "\n")
+                else:
+                    self.log = (self.dir / "translator.log").read_text().strip() if (self.dir / "translator.log").exists() else ""
+                for mod, src in TREE_FILES:
+                    if src:
+                        text = to_tree_source((C.COQ / src).read_bytes().decode("utf-8")).encode("utf-8")
+                        f = self.dir / f"{mod}.v"
+                        if not f.exists() or f.read_bytes() != text:
+                            f.write_bytes(text)
+                self._build()
+            finally:
+                fcntl.flock(lk, fcntl.LOCK_UN)
+        self._sweep()
+        dump = json.loads((self.dir / "dump.json").read_text())
+        dump["_log"] = self.log + f" [tree {self.key}]"
+        if Path(dump.get("repo", "")).resolve() != C.REPO.resolve():
+            raise RuntimeError(f"translator dumped {dump.get('repo')} but the check runs against {C.REPO}")
+        return dump
+
+    def _build(self):
+        static = [C.COQ / "Units" / "Tables.vo"]
+        self.failed = {}
+        for mod, _ in TREE_FILES:
+            v, vo = self.dir / f"{mod}.v", self.dir / f"{mod}.vo"
+            deps = [self.dir / f"{d}.vo" for d in TREE_DEPS[mod]] + static
+            if any(d in self.failed for d in TREE_DEPS[mod]):
+                self.failed[mod] = "a dependency failed"
+                continue
+            fresh = vo.exists() and vo.stat().st_mtime_ns >= v.stat().st_mtime_ns and \
+                all(d.exists() and d.stat().st_mtime_ns <= vo.stat().st_mtime_ns for d in deps)
+            if fresh:
+                continue
+            rc, out = coqc_tree(self.dir, v, cwd=self.dir)
+            if rc != 0:
+                vo.unlink(missing_ok=True)
+                self.failed[mod] = out[-2500:]
+
+    def _sweep(self):
+        """forget the directories of trees not used for a day"""
+        import shutil
+        import time
+        try:
+            for d in TREES.iterdir():
+                if d.is_dir() and d != self.dir and time.time() - d.stat().st_mtime > 86400:
+                    shutil.rmtree(d, ignore_errors=True)
+            os.utime(self.dir)
+        except OSError:
+            pass
+
+    def props_report(self, pid: str) -> dict:
+        """re-check coq/Props/<pid>.v against the tables of this tree; theorem names and axioms"""
+        text = to_tree_source((C.COQ / "Props" / f"{pid}.v").read_text())
+        theorems = re.findall(r"^\s*Theorem\s+([A-Za-z0-9_']+)", text, re.M)
+        printed = re.findall(r"^\s*Print Assumptions\s+([A-Za-z0-9_']+)", text, re.M)
+        d = self.dir / f"props_{pid}_{os.getpid()}"
+        d.mkdir(exist_ok=True)
+        f = d / f"{pid}_recheck.v"
+        f.write_text(text)
+        rc, out = coqc_tree(self.dir, f, timeout=900)
+        import shutil
+        shutil.rmtree(d, ignore_errors=True)
+        blocks = [b for b in re.split(r"(?=Closed under the global context|Axioms:)", out)
+                  if b.startswith("Closed under the global context") or b.startswith("Axioms:")]
+        assumptions = {}
+        for name, b in zip(printed, blocks):
+            assumptions[name] = [] if b.startswith("Closed") else \
+                sorted(set(re.findall(r"^([A-Za-z_][A-Za-z0-9_'.]*)\s*:", b, re.M)))
+        return {"ok": rc == 0, "theorems": theorems, "assumptions": assumptions, "log": out[-4000:], "printed": printed}
+
+
+def check_proofs(run: C.Run, tree: Tree, extra_tb=None) -> bool:
+    """What common.Run.check_proofs does, with the table-dependent part taken from the run's own tree
+    directory: source gate, incremental build of the tree-independent files, re-check of Props/<pid>.v."""
+    gate = C.source_gate()
+    ok, log = C.build_coq(STATIC_TARGETS)
+    gen_fail = {m: o for m, o in tree.failed.items()}
+    rep = tree.props_report(run.pid)
+    n = len(rep["theorems"])
+    run.cov["obligations"] = max(n, 1)
+    run.cov["discharged"] = n if (ok and rep["ok"] and not gate) else 0
+    run.cov["theorems"] = rep["theorems"]
+    run.cov["axioms_per_theorem"] = rep["assumptions"]
+    run.cov["generated_modules_not_compiling"] = sorted(gen_fail)
+    run.cov["checker_cmd"] = (f"python3 translator/dump_units.py --out .scratch/units/trees/{tree.key} && "
+                              f"python3 tools/build.py {' '.join(STATIC_TARGETS)} && "
+                              f"coqc -R coq PV -R .scratch/units/trees/{tree.key} PVT <Gen_Tables.v Gen_Compound.v GenFacts16.v "
+                              f"GenFacts17.v, coq/Props/{run.pid}.v> (generated modules imported from PVT; full .vo; "
+                              "Print Assumptions under every theorem)")
+    axioms = sorted({a for v in rep["assumptions"].values() for a in v})
+    tb = [C.KERNEL_TB,
+          "axioms reported by Print Assumptions: " + (", ".join(axioms) if axioms else "none (all theorems closed under the global context)"),
+          "hand-written Gallina model tied to /repo by the per-run correspondence check (harness/%s.py)" % run.pid.lower()]
+    run.cov["trusted_base"] = tb + list(extra_tb or [])
+    if gate:
+        run.violation("forbidden-construct", "forbidden construct in the Coq development: " + "; ".join(gate[:5]),
+                      {"lines": gate}, found_input=False)
+        return False
+    if not ok or not rep["ok"]:
+        run.proof_log = (log[-2000:] if not ok else "") + "".join(f"\n[{m}] {o[-1200:]}" for m, o in gen_fail.items()) + rep["log"][-1500:]
+        return False
+    return True
 
 
 def load_units():
@@ -70,9 +229,10 @@ def load_units():
 class Ctx:
     """Live module + the class numbering of the dump."""
 
-    def __init__(self, U, dump):
+    def __init__(self, U, dump, tree=None):
         self.U = U
         self.dump = dump
+        self.tree = tree
         self.names = [c["name"] for c in dump["classes"]]
         self.index = {n: i for i, n in enumerate(self.names)}
         self.classes = [getattr(U, n) for n in self.names]
@@ -279,7 +439,8 @@ def run_call(ctx: Ctx, spec):
 
 # ------------------------------------------------------------------ Coq rendering
 PREAMBLE = """From Coq Require Import ZArith List String PrimFloat.
-From PV Require Import Units.Tables Units.SIString Units.Dispatch Units.Gen_Tables.
+From PV Require Import Units.Tables Units.SIString Units.Dispatch.
+From PVT Require Import Gen_Tables.
 Import ListNotations.
 Local Open Scope string_scope.
 Definition nm (c : nat) (x : float) (u : string) : pyval float_ops := @VNamed float_ops c x u.
@@ -410,7 +571,7 @@ def run_correspondence(run: C.Run, ctx: Ctx, cases, shard: int = 500):
                      "Eval vm_compute in (mismatches_from float_ops gen_module 0 cases).\n")
         files.append(f)
     _SIG_DEFS.clear()
-    results = C.coqc_many(files)
+    results = coqc_tree_many(ctx.tree.dir, files)
     mism = list(unrepresentable)
     for ch, f, (rc, out) in zip(chunks, files, results):
         lst = C.parse_nat_list(out)
@@ -450,7 +611,7 @@ C17_CHECKS = {"base_factor", "units_wf", "described", "display", "alias_display"
               "all_names", "compound", "classes_plain"}
 
 
-def coq_table_offenders(pid: str, names=None):
+def coq_table_offenders(pid: str, names=None, tree=None):
     """Evaluate the offender list of every table check in `names` inside coqc (against the freshly
     built Gen_Tables.vo).  Returns (dict name -> list, per-class entry counts, error)."""
     d = C.SCRATCH / f"tables_{pid}" / f"run{os.getpid()}"
@@ -459,7 +620,8 @@ def coq_table_offenders(pid: str, names=None):
     checks = [c for c in COQ_TABLE_CHECKS if names is None or c[0] in names]
     need_compound = any(c[0] == "compound" for c in checks)
     lines = ["From Coq Require Import ZArith List String.",
-             "From PV Require Import Units.Tables Units.Gen_Tables" + (" Units.Gen_Compound." if need_compound else "."),
+             "From PV Require Import Units.Tables.",
+             "From PVT Require Import Gen_Tables" + (" Gen_Compound." if need_compound else "."),
              "Import ListNotations."]
     for name, expr, kind in checks:
         if kind == "pairs":
@@ -468,7 +630,7 @@ def coq_table_offenders(pid: str, names=None):
             lines.append(f"Eval vm_compute in ({expr}).")
     lines.append("Eval vm_compute in (flat_map class_counts gen_classes).")
     f.write_text("\n".join(lines) + "\n")
-    rc, out = C.coqc_file(f, timeout=300)
+    rc, out = coqc_tree(tree.dir, f, timeout=300)
     import shutil
     shutil.rmtree(d, ignore_errors=True)
     if rc != 0:
